@@ -109,7 +109,9 @@ Shape(q) ==
 
 Static ==
   (n = 0 /\ ii = 1) =>
-    /\ \/ PP[p].outcome.k \in {"ok", "err"}
+    \* "the result is observationally equivalent to its input": there has to be a result (the exported functions
+    \* are well formed and have an entry; an error, a panic or a timeout is no result)
+    /\ \/ PP[p].outcome.k = "ok"
        \/ Rej(<<p, "completion">>, [why |-> "completion", prog |-> p, outcome |-> PP[p].outcome])
     /\ HasS(p) => (Shape(p) \/ Rej(<<p, "shape">>, [why |-> "shape", prog |-> p]))
 
